@@ -862,8 +862,10 @@ class Operator(object):
             return OperatorComp(self, other)
         elif isinstance(other, Number):
             # Left multiplication is more efficient, so we can use this in the
-            # case of linear operator.
-            if self.is_linear:
+            # case of linear operator. Operators like `RealPart` on a complex
+            # space are only real-linear: the rewrite is valid only for
+            # scalars that are also scalars of the range.
+            if self.is_linear and other in self.range.field:
                 return other * self
             else:
                 return OperatorRightScalarMult(self, other)
